@@ -63,6 +63,17 @@ var domExternalNeverFails = map[string]string{
 	"(*crypto/hmac.hmac).Write": "hash Write never returns an error",
 }
 
+// domExternalNonNil: external constructors whose (first) result is never nil when they report no error.
+var domExternalNonNil = map[string]string{
+	"crypto/aes.NewCipher":          "aes.NewCipher returns a cipher.Block or an error, never (nil, nil)",
+	"crypto/hmac.New":               "hmac.New always returns a hash object",
+	"crypto/cipher.NewCBCEncrypter": "returns a BlockMode or panics",
+	"crypto/cipher.NewCBCDecrypter": "returns a BlockMode or panics",
+	"crypto/sha256.New":             "always returns a hash object",
+	"crypto/sha1.New":               "always returns a hash object",
+	"crypto/md5.New":                "always returns a hash object",
+}
+
 // domExternalEnv: external callees that fail only when the environment (the random source) fails.
 var domExternalEnv = map[string]string{
 	"io.ReadFull":      "fails only when the reader fails or ends; the readers reached are crypto/rand (C10 IV rule); the random source is assumed to work",
@@ -470,6 +481,10 @@ func (d *domAn) calleesCannotFail(x *domFn, call *ssa.Call, kind string, idx int
 	var whys []string
 	for _, e := range cs.External {
 		if kind == "nil" {
+			if why, ok := domExternalNonNil[e]; ok {
+				whys = appendUniq(whys, why)
+				continue
+			}
 			return false, "nil result of external callee " + e
 		}
 		if why, ok := domExternalNeverFails[e]; ok {
@@ -605,6 +620,20 @@ func (d *domAn) guardRefuted(x *domFn, p *ssa.BasicBlock, succ int) (bool, strin
 				if ld, ok := v.(*ssa.UnOp); ok && ld.Op == token.MUL {
 					if why := spec.TreePresent(v.Type()); why != "" {
 						return true, text + ": " + why
+					}
+				}
+				// the object behind a type assertion on such a node
+				var ta *ssa.TypeAssert
+				if ex, ok := v.(*ssa.Extract); ok && ex.Index == 0 {
+					ta, _ = ex.Tuple.(*ssa.TypeAssert)
+				} else {
+					ta, _ = v.(*ssa.TypeAssert)
+				}
+				if ta != nil {
+					if ld, ok := ta.X.(*ssa.UnOp); ok && ld.Op == token.MUL {
+						if why := spec.TreePresent(v.Type()); why != "" {
+							return true, text + ": " + why
+						}
 					}
 				}
 			}
@@ -1410,6 +1439,12 @@ func (c *Ctx) macTotality(r *Report, prefix string) {
 		specs[calc] = &domSpec{ExactLenParam: -1,
 			NonNil:   map[string]bool{"eap": true, "eap.EapTypeData": true},
 			CallVals: map[string][]int64{"Type": {50}},
+			TreePresent: func(t types.Type) string {
+				if typeKey(t) == "*eap.EapAkaPrime" {
+					return "the type data of an EAP-AKA' packet is an EapAkaPrime object, not a typed nil pointer"
+				}
+				return ""
+			},
 			EnvErr:   map[string]string{"method:Marshal": "packets built through the API or decoded from well-formed input encode (decided by C14)"},
 		}
 	}
